@@ -159,7 +159,10 @@ pub enum ARec {
     Field { ty: Seq<u8>, original: Seq<u8>, obfuscated: Seq<u8> },
     Method { ty: Seq<u8>, original: Seq<u8>, obfuscated: Seq<u8>, arguments: Seq<u8>, original_class: Option<Seq<u8>>, lm: Option<ALm> },
 }
-pub enum AItem { Good(ARec), Bad(Seq<u8>) }
+// an error item: the offending line, and which kind of error it is (true: ParseErrorKind::ParseError(_), false: ParseErrorKind::Utf8Error(_)); the wording of the
+// message is not part of any property and is not pinned
+pub enum AItem { Good(ARec), Bad(Seq<u8>, bool) }
+pub open spec fn abs_kind(k: ParseErrorKind) -> bool { k is ParseError }
 pub open spec fn abs_lm(l: Option<LineMapping>) -> Option<ALm> {
     match l { Some(l) => Some(ALm { start: l.startline, end: l.endline, ostart: l.original_startline, oend: l.original_endline }), None => None }
 }
@@ -174,7 +177,7 @@ pub open spec fn abs_rec(r: ProguardRecord) -> ARec {
     }
 }
 pub open spec fn abs_item(r: Result<ProguardRecord, ParseError>) -> AItem {
-    match r { Ok(rec) => AItem::Good(abs_rec(rec)), Err(e) => AItem::Bad(e.line@) }
+    match r { Ok(rec) => AItem::Good(abs_rec(rec)), Err(e) => AItem::Bad(e.line@, abs_kind(e.kind)) }
 }
 // the record a member line denotes (Field without an argument list, Method with one; the name is split at its last dot; a line mapping exists
 // iff both obfuscated numbers are present and positive)
@@ -205,7 +208,7 @@ pub open spec fn parse_spec(bytes: Seq<u8>) -> (AItem, Seq<u8>) {
     let b = skip_nl(bytes);
     match line_spec(b) {
         Some((rec, rest)) => (AItem::Good(rec), rest),
-        None => (AItem::Bad(b.subrange(0, line_end(b))), b.subrange(line_end(b), b.len() as int)),
+        None => (AItem::Bad(b.subrange(0, line_end(b)), true), b.subrange(line_end(b), b.len() as int)),
     }
 }
 pub proof fn lemma_member_record_is_the_reference_record(rec: ProguardRecord, ms: MemberSpec)
@@ -603,7 +606,7 @@ pub proof fn lemma_items_skip(b: Seq<u8>)
 // more input carries its one terminator byte (`ParseError::line` includes it -- the documented, tested behaviour)
 pub open spec fn sim(x: AItem, y: AItem) -> bool {
     x == y || match (x, y) {
-        (AItem::Bad(p), AItem::Bad(q)) => no_nl(p) && q.len() == p.len() + 1 && q.subrange(0, p.len() as int) == p && spec_is_newline(q[p.len() as int]),
+        (AItem::Bad(p, kp), AItem::Bad(q, kq)) => kp == kq && no_nl(p) && q.len() == p.len() + 1 && q.subrange(0, p.len() as int) == p && spec_is_newline(q[p.len() as int]),
         _ => false,
     }
 }
@@ -697,8 +700,8 @@ pub proof fn lemma_items_of_concatenation(a: Seq<u8>, nl: u8, b: Seq<u8>)
                     assert(q.subrange(0, l.len() as int) =~= l);
                     assert(q[l.len() as int] == nl);
                     assert(items(Seq::<u8>::empty()) =~= Seq::<AItem>::empty());
-                    assert(items(a) =~= seq![AItem::Bad(l)]);
-                    assert(sim(AItem::Bad(l), AItem::Bad(q)));
+                    assert(items(a) =~= seq![AItem::Bad(l, true)]);
+                    assert(sim(AItem::Bad(l, true), AItem::Bad(q, true)));
                     assert(items(x).subrange(1, items(x).len() as int) =~= items(b));
                 }
             },
@@ -712,7 +715,7 @@ pub open spec fn goods(s: Seq<AItem>) -> Seq<ARec>
 {
     if s.len() == 0 { Seq::empty() } else {
         let rest = goods(s.subrange(1, s.len() as int));
-        match s[0] { AItem::Good(r) => seq![r] + rest, AItem::Bad(_) => rest }
+        match s[0] { AItem::Good(r) => seq![r] + rest, AItem::Bad(_, _) => rest }
     }
 }
 pub proof fn lemma_goods_glued(ia: Seq<AItem>, ib: Seq<AItem>, ix: Seq<AItem>)
@@ -725,12 +728,12 @@ pub proof fn lemma_goods_glued(ia: Seq<AItem>, ib: Seq<AItem>, ix: Seq<AItem>)
         assert(goods(ia) + goods(ib) =~= goods(ib));
     } else if ia.len() == 1 {
         assert(goods(ia.subrange(1, 1)) =~= Seq::<ARec>::empty());
-        match ia[0] { AItem::Good(r) => { assert(ix[0] == ia[0]); assert(goods(ia) =~= seq![r]); }, AItem::Bad(_) => { assert(ix[0] is Bad); assert(goods(ia) =~= Seq::<ARec>::empty()); assert(goods(ia) + goods(ib) =~= goods(ib)); } }
+        match ia[0] { AItem::Good(r) => { assert(ix[0] == ia[0]); assert(goods(ia) =~= seq![r]); }, AItem::Bad(_, _) => { assert(ix[0] is Bad); assert(goods(ia) =~= Seq::<ARec>::empty()); assert(goods(ia) + goods(ib) =~= goods(ib)); } }
     } else {
         lemma_goods_glued(ia.subrange(1, ia.len() as int), ib, ix.subrange(1, ix.len() as int));
         match ia[0] {
             AItem::Good(r) => { assert(goods(ix) =~= seq![r] + (goods(ia.subrange(1, ia.len() as int)) + goods(ib))); },
-            AItem::Bad(_) => {},
+            AItem::Bad(_, _) => {},
         }
     }
 }
